@@ -11,7 +11,14 @@ The three methods have no `await` inside, so each of them is one atomic event of
 
 The only output is `start g r` = `_process_request` creates the task that runs
 `ComponentManager.distribute_power(r)`.  A group is `frozenset(request.component_ids)`; the model only
-needs equality of groups, so groups are numbers, and requests are numbered too.
+needs equality of groups, so groups are numbers.
+
+Requests are first-class: a `Req` is the *identity* of the `Request` object the environment sent (`id`,
+one number per object) together with its fields (`power`, `adjust_power`; its component set is the group of
+the event that carries it).  Nothing in the model looks inside a request, and two requests are the same
+only if identity AND fields agree — so every theorem that says "the request started is the most recent
+one" says it about the object and all of its fields, also when several waiting requests ask for the same
+power or are equal field by field.
 
 WHAT the methods do in each situation is not written here: it is the table `Extracted.Distributor.policy`,
 regenerated from the Python source on every run.  `step` interprets that table.
@@ -26,7 +33,13 @@ namespace Distributor
 open Extracted.Distributor (Policy ArriveAct CompleteAct policy)
 
 abbrev Group := Nat
-abbrev Req := Nat
+
+/-- A `Request` object: its identity and its fields (`power` in watts; `adjust` = `adjust_power`). -/
+structure Req where
+  id : Nat
+  power : Int
+  adjust : Bool
+deriving DecidableEq, Repr
 
 inductive Outcome | ok | exc
 deriving DecidableEq, Repr
